@@ -144,10 +144,37 @@ func runC15(c *harness.Case) {
 	for _, nm := range []string{"/a", "/b", "/c/d", "/e", "/f"}[:2+r.Intn(4)] {
 		s.keys = append(s.keys, harness.Prefix+nm)
 	}
+	// standing by: in fail-over cases the future leader(s) already run and look at the lock every now and then, as
+	// client-go's election loop does every retry period (they find it held and leave it alone)
+	var standby, third *harness.Node
+	if !strings.HasSuffix(kind, "-restart") {
+		standby = follower
+		if standby == nil && c.Index%4 != 1 {
+			standby = harness.NewNode(harness.NodeOpts{KV: eng.KV, SkipInit: true, Config: backend.Config{Identity: "node-b:2380"}})
+		}
+		if c.Index%3 == 0 {
+			third = harness.NewNode(harness.NodeOpts{KV: eng.KV, SkipInit: true, Config: backend.Config{Identity: "node-c:2380"}})
+			defer third.Retire()
+		}
+	}
+	look := func(n *harness.Node) {
+		if n != nil {
+			_, _ = n.B.GetResourceLock().Get()
+			c.Stat("looks_at_the_lock_by_standing_by_nodes", 1)
+		}
+	}
+	lookEvery, lookEvery3 := 1+r.Intn(15), 1+r.Intn(25)
+	lookFrom3 := r.Intn(40)
 	nOps := 5 + r.Intn(60)
 	renewEvery := 1 + r.Intn(20)
 	burst := 0
 	for i := 0; i < nOps; i++ {
+		if i%lookEvery == 0 {
+			look(standby)
+		}
+		if i >= lookFrom3 && i%lookEvery3 == 0 {
+			look(third)
+		}
 		var op harness.SeqOp
 		if burst > 0 || r.Intn(8) == 0 {
 			if burst == 0 {
@@ -245,11 +272,14 @@ func runC15(c *harness.Case) {
 	if r.Intn(3) == 0 {
 		idB = "node-a:2380" // the same node restarted
 	}
-	b := follower
+	b := standby
 	if b == nil {
 		b = harness.NewNode(harness.NodeOpts{KV: kvForB, SkipInit: true, Config: backend.Config{Identity: idB}})
 	} else {
 		idB = "node-b:2380"
+		c.Stat("handovers_to_a_node_that_stood_by", 1)
+	}
+	if follower != nil {
 		c.Stat("handovers_to_a_node_that_served_follower_reads", 1)
 		c.Stat("follower_reads_before_handover", atomic.LoadInt64(&followerReads))
 	}
@@ -310,6 +340,89 @@ func runC15(c *harness.Case) {
 			if out.Rev <= maxStored {
 				c.Violatef("C15 first-revision-not-above-stored engine="+base, wit(), "%s got revision %d <= max stored %d", op, out.Rev, maxStored)
 				return
+			}
+		}
+	}
+	if third != nil && c.R.Verdict == "held" && vb > maxStored {
+		// a second fail-over: the new leader works for a while (failed writes included), the third node - standing by
+		// since some point of the first leader's term - keeps looking at the lock, then takes over
+		sb := &seqCtx{c: c, n: b, m: s.m, keys: s.keys}
+		for i := 0; i < 5+r.Intn(40); i++ {
+			op := sb.genOp(r, false)
+			if op.Kind == "update" && op.Exp > b.Dealt() {
+				op.Exp = 0
+			}
+			if len(op.Val) > 32 {
+				op.Val = op.Val[:32]
+			}
+			if r.Intn(4) == 0 {
+				op = harness.SeqOp{Kind: "create", Key: harness.Prefix + "/zz-first", Val: []byte("dup")} // fails, consumes a revision
+			}
+			if !sb.write(op, "C15") {
+				return
+			}
+			if i%lookEvery3 == 0 {
+				look(third)
+			}
+			if i%renewEvery == renewEvery-1 {
+				renew(b, idB)
+			}
+		}
+		if c.R.Verdict == "violated" {
+			c.R.Verdict, c.R.Violations = "inconclusive", nil
+			c.R.Inconclusive = "second leader's history disagreed with the reference (not this property's subject)"
+			return
+		}
+		dealtB := b.Dealt()
+		b.WaitCommitted(dealtB, 30*time.Second)
+		b.Retire()
+		vc, err := elect(third, "node-c:2380")
+		if err != nil {
+			c.Violatef("C15 new-leader-cannot-be-elected engine="+base+" hop=second", wit(), "third node could not take the lock: %v", err)
+			return
+		}
+		c.Stat("second_handovers", 1)
+		if vc <= dealtB {
+			// every revision up to dealtB may be present in the store (successful writes) or was at least handed out
+			maxNow := uint64(0)
+			for _, vs := range s.m.Keys {
+				for _, v := range vs {
+					if v.Rev > maxNow {
+						maxNow = v.Rev
+					}
+				}
+			}
+			if vc <= maxNow {
+				w := wit().(map[string]interface{})
+				w["second_leader_last_dealt"], w["third_leader_start_revision"], w["max_stored_revision_now"] = dealtB, vc, maxNow
+				c.Violatef("C15 new-leader-starts-at-or-below-stored-revisions engine="+base+" hop=second", w, "after a second fail-over the new leader initialised its revision to %d but the store already holds revision %d (second leader started at %d and dealt up to %d)", vc, maxNow, vb, dealtB)
+				return
+			}
+		}
+		full := harness.Prefix + "/"
+		first, err := third.Create(harness.Prefix+"/zz-second", []byte("n"))
+		if err != nil || !first.Succeeded {
+			c.Violatef("C15 first-revision-not-above-stored engine="+base+" hop=second", wit(), "first write after the second fail-over: %v %v", first, err)
+			return
+		}
+		third.WaitCommitted(first.Header.GetRevision(), 30*time.Second)
+		s.m.Put(harness.Prefix+"/zz-second", first.Header.GetRevision(), []byte("n"))
+		l, err := third.List(full, string(backend.PrefixEnd([]byte(full))), 0, 0)
+		if err != nil {
+			c.Violatef("C15 list-error-on-new-leader engine="+base+" hop=second", wit(), "List(rev=0): %v", err)
+			return
+		}
+		if want := s.m.Snapshot(full, string(backend.PrefixEnd([]byte(full))), ^uint64(0)); !sameKVs(want, l.Kvs) {
+			c.Violatef("C15 earlier-writes-not-visible-on-new-leader engine="+base+" hop=second", wit(), "List(rev=0) after the second fail-over = %s; acknowledged state is %s", kvStr(l.Kvs), mkvStr(want))
+			return
+		}
+		for _, k := range s.keys {
+			if live := s.m.Live(k); live != nil {
+				op := harness.SeqOp{Kind: "update", Key: k, Val: []byte("by-third-leader"), Exp: live.Rev}
+				if out, mis := third.ApplyChecked(s.m, op); mis != "" {
+					c.Violatef("C15 guarded-write-on-existing-key-fails-on-new-leader engine="+base+" hop=second", wit(), "%s (answer %s)", mis, out)
+					return
+				}
 			}
 		}
 	}
